@@ -170,7 +170,14 @@ def onStates (st : St) (obs : List BlobSt) : St × String :=
         let hist1 := marked.foldl (fun h id => histSet h id (histGet h id ++ [r])) hist0
         let nOk := match n with | some n => n == marked.length | none => true
         if marked != expected then
-          ({ st' with hist := hist1 }, s!"MISMATCH delete-targets expected={expected} got={marked}")
+          -- reported; a caller that accepts under-marking (a delete issued while an injected fault is armed: the
+          -- error of a closed blob is logged and counted as "not deleted") must also accept that the marker of such a
+          -- blob, if its header reached the file, is indexed at the next start: the unmarked targets wait in limbo
+          let pend := if marked.all (fun id => expected.contains id) then
+              (expected.filter (fun id => !marked.contains id)).map (fun id => (r, id, (histGet hist0 id).length))
+            else []
+          ({ st' with hist := hist1, limbo := st'.limbo ++ pend },
+            s!"MISMATCH delete-targets expected={expected} got={marked}")
         else if !nOk then ({ st' with hist := hist1 }, s!"MISMATCH delete-count marked={marked.length}")
         else ({ st' with hist := hist1 }, "ok")
 
